@@ -1189,6 +1189,9 @@ class Exec:
         v = self.eval(a.value, env)
         if isinstance(v, VTuple):
           args.extend(v.items)
+        elif isinstance(v, VOpaque):
+          kwargs_star = v            # f(*args): passed on as one opaque value
+          args.append(v)
         else:
           self.unsupported(node, 'star-args of %s' % v.kind)
       else:
